@@ -53,7 +53,14 @@ def FS.WF (fs : FS) : Prop :=
   (∀ i, fs.dir.dest = some i → i < fs.inodes.length) ∧
   (∀ i, fs.dir.part = some i → i < fs.inodes.length)
 
-instance (fs : FS) : Decidable fs.WF := by unfold FS.WF; cases fs.dir.dest <;> cases fs.dir.part <;> simp <;> infer_instance
+def FS.wfb (fs : FS) : Bool :=
+  fs.dir.dest.all (fun i => decide (i < fs.inodes.length)) && fs.dir.part.all (fun i => decide (i < fs.inodes.length))
+
+theorem FS.wfb_iff (fs : FS) : fs.wfb = true ↔ fs.WF := by
+  unfold FS.wfb FS.WF
+  cases fs.dir.dest <;> cases fs.dir.part <;> simp
+
+instance (fs : FS) : Decidable fs.WF := decidable_of_iff _ fs.wfb_iff
 
 def FS.setDir (fs : FS) (d : Dir) : FS := { fs with dir := d, hist := fs.dir :: fs.hist }
 
